@@ -9,9 +9,9 @@ COMMON_NOTE = ("Trusted: TLC 1.8, the harness (xml serializer self-checked by an
                "sessions are validated against the specification.")
 
 CHECKS = {
- "C01": ("model_checking", "Parser.tla + Schema.tla: TLC checks Sound (the inferred schema Admits every consumed document) on every event history within the bounds; every history is replayed through the real parser and the real schema must admit the documents; random larger sessions are validated by SchemaTrace (mode C01).", "TLA+ Parser/Schema spec, TLC exhaustive histories, spec->impl replay, SchemaTrace validation", "§5 C01"),
- "C03": ("model_checking", "TLC checks Exact (Proj(tree) = Schema!TyOf(documents)) and the mechanism invariant StackWF on every event history of the children/attrs/text instances; each history is replayed through the real parser and its schema compared with the schema the documents determine (also cross-checked by an independent Rust DOM inference); random sessions validated by SchemaTrace (mode C03).", "TLA+ Parser/Schema spec, TLC exhaustive histories, spec->impl replay, SchemaTrace validation", "§5 C03"),
- "C06": ("model_checking", "TLC checks Exact, Monotone, NoOpOnEmptyDoc and AlgebraInv (order/duplication independence of the reference) on 2-3 document histories; the real code is run on every history, on all permutations, doubled documents and interleaved element-less documents (harness c06-algebra); random sessions validated by SchemaTrace (mode C06).", "TLA+ spec + TLC, replay, run-relation checks (permutation/duplication/empty), SchemaTrace", "§5 C06"),
+ "C01": ("model_checking", "Parser.tla + Schema.tla: TLC checks Sound (the inferred schema Admits every consumed document) on every event history of the children / attrs / text / docs3 / mixed instances, and RenderedSound on the composition parser -> renderer (MC_Pipeline: the rendered structs describe every document); every history is replayed through the real parser and the real schema must admit the documents; random larger sessions (incl. a scale family: many distinct children, many occurrences, deep nesting) are validated by SchemaTrace (mode C01) and their renderings judged by RenderTrace (fields bound to the XML names with the wrappers of the tree's flags).", "TLA+ Parser/Schema spec, TLC exhaustive histories, spec->impl replay, SchemaTrace validation", "§5 C01"),
+ "C03": ("model_checking", "TLC checks Exact (Proj(tree) = Schema!TyOf(documents)) and the mechanism invariant StackWF on every event history of the children/attrs/text/mixed instances; each history is replayed through the real parser and its schema compared with the schema the documents determine (cross-checked by an independent Rust DOM inference); random sessions incl. the scale family are validated by SchemaTrace (mode C03), their renderings judged by RenderTrace, and the steps recorded by the parser hooks (incl. the repository's own test documents) are validated step by step by ParserTrace with all invariants on.", "TLA+ Parser/Schema spec, TLC exhaustive histories, spec->impl replay, SchemaTrace validation", "§5 C03"),
+ "C06": ("model_checking", "TLC checks Exact, Monotone, NoOpOnEmptyDoc and AlgebraInv (order/duplication independence of the reference) on 2-3 document histories and Verdict on histories whose fault lies in an extend; the real code is run on every history, on all permutations, doubled documents and interleaved element-less documents (harness c06-algebra); random sessions validated by SchemaTrace (mode C06); hook traces by ParserTrace.", "TLA+ spec + TLC, replay, run-relation checks (permutation/duplication/empty), SchemaTrace", "§5 C06"),
  "C08": ("model_checking", "TLC checks Verdict/Total on histories with one injected fault of each kind at every point; each is realised as bytes and the real verdict/error kind compared; random damaged documents: verdict, kind, byte position and Debug text predicted from an independent reader pass are validated by SchemaTrace (mode C08).", "TLA+ error actions + TLC fault injection, replay, independent observer pass, SchemaTrace", "§5 C08"),
  "C09": ("model_checking", "Schema!TyOf is ordered by first appearance; TLC checks Exact on the attrs instance (every ordered attribute list per occurrence) and children instance; replay compares the stored attribute order and child positions of the real tree; SchemaTrace (mode C09) on random sessions.", "TLA+ spec + TLC, replay, SchemaTrace", "§5 C09"),
  "C11": ("model_checking", "TLC checks FormInsensitive (state-level equality of <x/> vs <x></x>, Text vs CDATA) in every reading state; the harness applies every listed rewrite to the TLC-enumerated histories on the real code and requires byte-identical rendering under both presets and sort orders.", "TLA+ spec + TLC, metamorphic rewrites of TLC-enumerated histories on the real code", "§5 C11"),
@@ -19,13 +19,13 @@ CHECKS = {
 }
 CHECKS.update({
  "C04": ("model_checking", "Render.tla / Strings.tla / Chars.tla transcribe the renderer, identifier map and convert_string; trees are enumerated by TLC as public-operation sequences over adversarial name pools; the as-coded model is judged at design level and every tree is built through the real API, rendered, parsed by a strict template parser and judged by RenderProps!C04Tags in RenderTrace (which also reports any deviation from the model). Known defects of the pinned renderer are listed in known_findings.json.", "TLA+ renderer spec + TLC tree enumeration, spec->impl replay, RenderTrace judging of real output", "§5 C04"),
- "C05": ("model_checking", "TLC checks Deterministic (no choice left once the event is fixed) on the histories of the names/children instances; every history is parsed and rendered repeatedly on the real code in one thread, several threads and fresh processes; all outputs must be byte-identical.", "TLA+ spec + TLC (input generation, determinism invariant), repetition oracle on the real code", "§5 C05"),
+ "C05": ("model_checking", "TLC checks Deterministic (no choice left once the event is fixed) on the histories of the names/children/attrs instances; every history, 600 random sessions over colliding names and TLC-enumerated trees over pools in which identifier / struct-name disambiguation has work to do are parsed and rendered repeatedly on the real code in one thread, several threads and fresh processes; all outputs must be byte-identical.", "TLA+ spec + TLC (input generation, determinism invariant), repetition oracle on the real code", "§5 C05"),
  "C10": ("model_checking", "Each TLC-enumerated / random tree is rendered by the real code under both presets, both sort orders and random derive/prefix/text-identifier strings; RenderTrace judges derive lines, rename rules, bindings and that equal sort options give equal skeletons (RenderProps!OptionTags, ReflectTags, Skeleton).", "TLA+ renderer spec + TLC, RenderTrace judging across option tuples", "§5 C10"),
  "C14": ("model_checking", "Trees in which one name recurs under different parents / depths / itself are enumerated by TLC; RenderProps!NameTags judges every real struct name (own PascalCase name, ancestor qualification only, unqualified when unique, first struct = root) and the as-coded model at design level.", "TLA+ renderer spec + TLC, RenderTrace judging", "§5 C14"),
  "C16": ("model_checking", "ElementApi.tla: every sequence of public operations within the bound is a behaviour; TLC checks Unique and EffectOK after every operation; each sequence is executed on a real Element and ApiTrace accepts a step only if names stay unique and the operation had exactly the demanded effect; final trees are rendered and judged by RenderTrace; random sequences up to 60 operations beyond the bound.", "TLA+ API state machine + TLC, spec->impl replay, ApiTrace / RenderTrace validation", "§5 C16"),
 })
 CHECKS.update({
- "C07": ("exploration", "Mass execution with a monitor: seeds are the byte serialisations of the TLC-enumerated fault histories (MC_Parser instance errors, whose invariant Total shows the design has a successor for every event in every reading state), the repository's test documents and random documents; byte-level mutations, truncation at every offset, invalid UTF-8, raw bytes, nesting to depth 200; random reader configurations and chunked / small-capacity BufRead; every Ok result rendered with random options; catch_unwind per case, wall-clock limit and exit status per batch.", "TLC-derived seed corpus + mutation-based execution under a panic/abort/hang monitor", "§5 C07"),
+ "C07": ("exploration", "Mass execution with a monitor: seeds are the byte serialisations of the TLC-enumerated fault histories (MC_Parser instance errors; invariant Total and the temporal property EveryCallReturns under fairness show the design has a successor for every event and every call returns), the repository's test documents, boundary names (multi-byte characters at every byte offset, degenerate names), state-machine shapes (several roots, stray ends, BOM) and a scale family (70 000 repeats, 400 attributes, depth 200); byte-level mutations, truncation at every offset, invalid UTF-8, raw bytes; random reader configurations and chunked / small-capacity BufRead; every Ok result rendered with random options; the crate is built with debug assertions and overflow checks; catch_unwind per case, a 20 s per-case watchdog and exit status per batch; hook traces of hostile runs are validated by ParserTrace (a Panic line has no action).", "TLC-derived seed corpus + mutation-based execution under a panic/abort/hang monitor", "§5 C07"),
  "C12": ("model_checking", "Cli.tla steps one run of the binary in program order; MC_Cli enumerates all input kinds x output kinds x option values (exhaustive) and checks the sentences of C12 in every state; each behaviour is executed with the real binary under strace, observables compared with the prediction (expected bytes = header + library rendering for the options the specification derives) and the system-call sequence validated by CliTrace (output is never opened before the input parsed).", "TLA+ CLI state machine + TLC (exhaustive), replay against the real binary, strace trace validation", "§5 C12"),
 })
 CHECKS.update({
